@@ -10,28 +10,33 @@ import coqemit as E
 ID = "C18"
 PROPS = "Props/C18.v"
 IMPORTS = "From Coq Require Import PrimFloat.\nFrom PV Require Import Lib.Common Model.C18_Haplo."
-SHARD = 12
-LEVEL_TEXT = ("Coq theorems over an executable model of the haplotype-block code, generic in the number type of the genetic positions "
-              "(instances: bit-exact binary64 and exact rationals): the greedy apportionment returns one count per chromosome, each >= 1, "
-              "summing to the requested total (all inputs); every marker of a sorted chromosome receives exactly one label inside its "
-              "chromosome's label range and labels are non-decreasing (any total preorder on positions, any non-decreasing boundary list "
-              "with exact end points; proved for the rational linspace); the run-length boundaries partition 0..p into non-empty contiguous "
-              "runs of constant label; block values over any such partition add up to the copy's additive value; the optimal haploid / "
-              "population value is ploidy * sum over blocks of the best designated copy, is attained by a block choice and bounds every "
-              "doubled haploid recombining at block boundaries. The clauses 'exactly the requested total' and 'finite for every valid "
-              "input' are REFUTED (an equal-width bin can be empty) and proved under the guard 'as many runs as requested blocks'. "
-              "The model is evaluated inside Coq against the implementation's outputs on generated layouts.")
-LEVEL_NOTE = ("trusted: Coq kernel + vm_compute, PrimFloat primitives; numpy.empty is instrumented by the driver to return NaN/-1 filled "
-              "arrays so that never-written entries are observable (modelled as None); block values, OHV/OPV sums are compared as exact "
-              "rationals on dyadic grids (BLAS/numpy summation order not modelled); theorems about ordering are proved for any total "
-              "preorder and any sorted boundary list — that binary64 <= is one on finite floats and that the binary64 linspace is "
-              "sorted is checked by computation on every generated case, not proved in general")
-TECHNIQUE = "Coq proof over an executable model (generic order + PrimFloat/Q instances); in-Coq vm_compute correspondence"
-RULE = ("case = (kind helpers|haplomat|ohv|opv|gb, marker layout = chromosome lengths + genetic positions, requested block total, "
-        "genotypes, effects, parent tuples / selections); layouts from one PRNG: per chromosome one of even grid (markers on bin "
-        "boundaries), random grid with duplicates, cluster + far marker (empty equal-width bin), all-equal positions, single marker, "
-        "off-grid floats (j/7, j/3, random) exercising linspace rounding; totals from #chr to #markers plus out-of-range totals; "
-        "non-trivial = >= 3 markers, >= 2 blocks requested and every equal-width bin non-empty; distinct by SHA-256 of the case")
+SHARD = 40
+LEVEL_TEXT = ("Coq theorems over an executable model of the haplotype-block code that is generic in the number type of the genetic "
+              "positions (instances: binary64 as executed, bit exact incl. numpy.linspace's operation order; exact rationals): "
+              "greedy apportionment = one count per chromosome, each >= 1, summing to the requested total (all inputs, all number types); "
+              "on sorted chromosomes tiling the marker array every marker gets exactly one label inside its chromosome's label range and "
+              "labels are non-decreasing — proved for any total preorder and any boundary list with proper end points, discharged "
+              "unconditionally for Q and, via Flocq, for binary64 under a decidable hypothesis that every shard evaluates; haplobin_bounds is a "
+              "run-length encoding (partition into non-empty runs, decode = labels, adjacent runs differ); block values over any partition add up "
+              "to the copy's additive value; OHV/OPV = ploidy * sum over blocks of the best designated copy (upper bound, attained), >= every "
+              "block-boundary recombinant, for every cross of the (proved valid) cross map. The clauses 'exactly the requested total' and "
+              "'finite for every valid input' are REFUTED (an equal-width bin can lose all markers; witness evaluated in Coq and reproduced on "
+              "the implementation) and proved under the guard 'as many runs as requested blocks', itself proved from 'every label is carried by "
+              "a marker'. The model is evaluated inside Coq (vm_compute) against the implementation's outputs on generated layouts.")
+LEVEL_NOTE = ("trusted: Coq kernel + vm_compute, PrimFloat primitives + FloatAxioms specs, classical reals via Flocq (binary64 order only); "
+              "numpy.empty is instrumented by the driver to return NaN/-1 filled arrays so that never-written entries are observable (modelled "
+              "as None); block values, OHV/OPV sums are compared as exact rationals on dyadic grids (BLAS/numpy summation order not modelled); "
+              "real/integer/binary OHV latentfn and the genotype-builder latentfn within 2^-30 of the exact rational; finiteness of the binary64 "
+              "linspace boundaries is checked per case, not proved in general; theorems are about the Gallina model, the tie to the code is "
+              "differential on generated inputs")
+TECHNIQUE = "Coq proof over an executable model (generic order; PrimFloat/Flocq and Q instances); in-Coq vm_compute correspondence"
+RULE = ("case = (kind helpers|haplomat|ohv{Subset,Real,Integer,Binary via the selection protocols}|opv|gb, marker layout = chromosome "
+        "lengths + genetic positions, requested block total, genotypes, effects, parent tuples / selections, chunk size); layouts from one "
+        "PRNG: per chromosome one of even grid (markers exactly on bin boundaries), random grid with duplicates, cluster + far marker (empty "
+        "equal-width bin), all-equal/duplicated positions, single marker, off-grid floats (j/7, j/3, random) where linspace rounding decides; "
+        "1-4 chromosomes, totals from #chr to #markers plus totals below #chr and above #markers, explicit per-chromosome counts, a few "
+        "unsorted layouts; non-trivial = >= 3 markers, >= 2 blocks requested, >= 2 labels used and every equal-width bin non-empty; "
+        "distinct by SHA-256 of the case")
 TRUSTED = ["numpy.empty instrumented (driver only) so that unwritten entries are visible as NaN / -1",
            "binary64 sums of 0/1 genotypes times effects k/2^8 (|k/2^8| <= 16) are exact: compared as exact rationals",
            "numpy.linspace = arange(0,num)*((stop-start)/div)+start with the last point replaced by stop (numpy 2.x function_base.linspace)",
@@ -171,7 +176,7 @@ def gen_cases(rng, tier):
     cases.append({"kind": "helpers", "nhap": 7, "clen": [8], "styles": ["frac"], "pos": [j / 7 for j in range(8)]})
     cases.append({"kind": "helpers", "nhap": 5, "clen": [4, 4], "styles": ["even", "even"], "pos": [0.0, 1.0, 2.0, 3.0, 0.0, 1.0, 2.0, 3.0]})
     N = {"helpers": 150, "haplomat": 40, "ohv": 60, "opv": 30, "gb": 25} if tier == "quick" else \
-        {"helpers": 2400, "haplomat": 500, "ohv": 800, "opv": 400, "gb": 300}
+        {"helpers": 5000, "haplomat": 1200, "ohv": 2000, "opv": 900, "gb": 700}
     for kind, n in N.items():
         for _ in range(n):
             cases.append(_one(rng, kind))
